@@ -24,6 +24,10 @@ pub enum Profile {
     /// alphabet (k = 4 or 2): k leaves of weight 1 at the bottom, then k-1 leaves per level, each
     /// heavier than the subtree two levels below
     Deep(u8),
+    /// like `Deep(4)`, but with two chains of internal nodes below the root of a 4-ary Huffman
+    /// code (each level holds 2 internal nodes and 6 leaves): deep codes that differ in their
+    /// first digit. The parameter is the number of chains (only 2 is built).
+    DeepChains(u8),
 }
 
 #[derive(Clone, Copy, Debug, PartialEq, Eq, Hash, Serialize, Deserialize)]
@@ -183,6 +187,59 @@ pub fn align_occurrences<T: Copy>(mut cls: Vec<T>, mut oth: Vec<T>, rng: &mut Rn
     out
 }
 
+/// counts (largest first) of the cheapest 4-ary Huffman shape with `c` (= 2) equally deep
+/// chains below the root that fits n symbols and d distinct ones. Step s merges the lightest
+/// chain subtree with three new leaves of weight x_s, where x_s is strictly heavier than the
+/// subtree merged in step s-1 (so those leaves were not picked earlier) and lighter than every
+/// other subtree; 4-c leaves heavier than everything complete the root.
+pub fn deep_chain_counts(n: usize, d: usize, c: usize) -> Vec<usize> {
+    let k = 4usize;
+    let c = c.clamp(2, 2); // three chains would need bottoms of different weights; not built
+    let heavy = k - c;
+    if d < c * k + heavy || n < c * k + heavy * (k + 1) {
+        return deep_counts(n, d, k);
+    }
+    let mut counts: Vec<usize> = vec![1; c * k];
+    let mut sub: Vec<usize> = vec![k; c];
+    let mut x_prev = 1usize;
+    let mut merged_prev = 0usize;
+    loop {
+        // complete rounds only, so that all chains have the same depth
+        let mut trial_counts: Vec<usize> = Vec::new();
+        let mut trial_sub = sub.clone();
+        let (mut xp, mut mp) = (x_prev, merged_prev);
+        for _ in 0..c {
+            let j = (0..c).min_by_key(|&j| trial_sub[j]).unwrap();
+            let x = xp.max(mp + 1);
+            mp = trial_sub[j];
+            trial_sub[j] += (k - 1) * x;
+            xp = x;
+            for _ in 0..k - 1 {
+                trial_counts.push(x);
+            }
+        }
+        let h = trial_sub.iter().max().unwrap() + 1;
+        let total: usize = trial_sub.iter().sum::<usize>() + heavy * h;
+        if counts.len() + trial_counts.len() + heavy > d || total > n {
+            break;
+        }
+        counts.extend(trial_counts);
+        sub = trial_sub;
+        x_prev = xp;
+        merged_prev = mp;
+    }
+    let h = sub.iter().max().unwrap() + 1;
+    let mut used: usize = sub.iter().sum();
+    for _ in 0..heavy {
+        counts.push(h);
+        used += h;
+    }
+    let last = counts.len() - 1;
+    counts[last] += n - used;
+    counts.reverse();
+    counts
+}
+
 impl Recipe {
     /// exact counts per alphabet symbol (sum == n; symbols beyond n are dropped)
     pub fn counts(&self) -> Vec<usize> {
@@ -192,6 +249,9 @@ impl Recipe {
         }
         if let Profile::Deep(k) = self.profile {
             return deep_counts(self.n, d, if k == 2 { 2 } else { 4 });
+        }
+        if let Profile::DeepChains(c) = self.profile {
+            return deep_chain_counts(self.n, d, c as usize);
         }
         let w: Vec<f64> = match self.profile {
             Profile::Uniform => vec![1.0; d],
@@ -205,7 +265,7 @@ impl Recipe {
             Profile::Fib => fib_weights(d),
             Profile::OneRare => (0..d).map(|j| if j == 0 { 1e9 } else { 1e-9 }).collect(),
             Profile::TwoFrequent => (0..d).map(|j| if j < 2 { 1e6 } else { 1.0 }).collect(),
-            Profile::Deep(_) => unreachable!(),
+            Profile::Deep(_) | Profile::DeepChains(_) => unreachable!(),
             Profile::Ties(g) => {
                 let g = g.max(1) as usize;
                 (0..d).map(|j| (1u64 << ((j / g).min(40))) as f64).collect()
@@ -469,6 +529,7 @@ fn profile() -> BoxedStrategy<Profile> {
         2 => (1u8..=5).prop_map(Profile::Ties),
         2 => Just(Profile::Deep(4)),
         2 => Just(Profile::Deep(2)),
+        1 => Just(Profile::DeepChains(2)),
     ]
     .boxed()
 }
@@ -737,5 +798,23 @@ impl SeqCase {
             out.push(SeqCase { how: How::New, ..self.clone() });
         }
         out
+    }
+}
+
+#[cfg(test)]
+mod tests {
+    use super::*;
+    #[test]
+    fn deep_chain_counts_give_two_deep_chains() {
+        for n in [5_000usize, 100_000, 1_318_810, 2_000_000] {
+            let c = deep_chain_counts(n, 300, 2);
+            assert_eq!(c.iter().sum::<usize>(), n);
+            let w: Vec<u64> = c.iter().map(|&x| x as u64).collect();
+            let lens = crate::model::huffman_lengths(&w, 4);
+            let max = *lens.iter().max().unwrap();
+            let deepest = lens.iter().filter(|&&l| l == max).count();
+            println!("n={n}: symbols {}, depth {max}, deepest leaves {deepest}, lens/level {:?}", c.len(), (1..=max).map(|l| lens.iter().filter(|&&x| x == l).count()).collect::<Vec<_>>());
+            assert_eq!(deepest, 8);
+        }
     }
 }
